@@ -234,6 +234,47 @@ def gen_call(rng, plots=True):
 # call construction
 # ---------------------------------------------------------------------------
 
+
+def canonical_queries(obj):
+    """Canonical read-only calls for the exhaustive ordered-pair walk (all on the object `obj`)."""
+    one = obj == 'col'
+    c1 = 'FL1-H'
+    chs = [None, c1] if one else [None, c1, ['FSC-H', 'Time'], 1]
+    q = []
+    for m in ('range', 'resolution', 'amplification_type', 'detector_voltage', 'amplifier_gain', 'channel_labels'):
+        for ch in chs[:2]:
+            q.append({'fn': 'acc', 'obj': obj, 'meth': m, 'ch': ch})
+    for nm in ('channels', 'text', 'analysis', 'time_step', 'acquisition_start_time', 'acquisition_end_time',
+               'acquisition_time', 'data_type', 'str'):
+        q.append({'fn': 'prop', 'obj': obj, 'name': nm})
+    for sc in SCALES:
+        for ch in chs:
+            for nb in (None, 16):
+                q.append({'fn': 'hist_bins', 'obj': obj, 'ch': ch, 'nbins': nb, 'scale': sc})
+    for st in ('mean', 'gmean', 'median', 'mode', 'std', 'cv', 'gstd', 'gcv', 'iqr', 'rcv'):
+        for ch in ([None] if one else [None, c1]):
+            q.append({'fn': 'stats', 'obj': obj, 'stat': st, 'ch': ch})
+    for f in ('events', 'channels', 'view', 'copy', 'mask', 'deepcopy'):
+        q.append({'fn': 'slice', 'obj': obj, 'form': f})
+    if not one:
+        q.append({'fn': 'to_rfi', 'obj': obj, 'ch': None})
+        q.append({'fn': 'to_rfi', 'obj': obj, 'ch': [c1, 'FSC-H']})
+        q.append({'fn': 'transform', 'obj': obj, 'ch': [0, 2]})
+        q.append({'fn': 'to_mef', 'obj': obj, 'sc_channels': [c1, 'FL2-H'], 'ch': None, 'params': [[1.0, 1.0], [1.05, 2.0]]})
+        q.append({'fn': 'high_low', 'obj': obj, 'ch': None, 'high': None, 'low': None, 'full': False})
+        q.append({'fn': 'high_low', 'obj': obj, 'ch': [c1, 'FSC-H'], 'high': None, 'low': None, 'full': True})
+        q.append({'fn': 'ellipse', 'obj': obj, 'ch': ['FSC-H', 'SSC-H'], 'center': [500, 400], 'a': 300, 'b': 200, 'theta': 0.5,
+                  'log': False, 'full': True})
+        for sc in SCALES:
+            q.append({'fn': 'gate_density2d', 'obj': obj, 'ch': ['FSC-H', 'SSC-H'], 'bins': 'pair' if sc == 'log' else 'int', 'n': 8,
+                      'f': 0.5, 'xscale': sc, 'yscale': sc, 'sigma': 1.0, 'full': sc == 'linear'})
+        for sc in SCALES:
+            q.append({'fn': 'selection_std', 'src': obj, 'ch': c1, 'scale': sc, 'thr': False, 'k': 3})
+        q.append({'fn': 'logicle', 'obj': obj, 'ch': 2, 'aslist': False})
+    q.append({'fn': 'start_end', 'obj': obj, 'a': 3, 'b': 2, 'full': True})
+    return q
+
+
 class Call(object):
     """callable + arguments + which argument objects to watch + classification"""
 
@@ -510,10 +551,13 @@ class C13Machine(Machine):
     assumptions = ['file position of buffer arguments is not part of the fingerprint',
                    'lists returned by accessors are allowed to alias stored state (the property speaks about samples)']
 
+    # quick: one sixth of the first calls (every object kind, every 6th first call); thorough: every ordered pair
+    N_PAIR_RUNS = {'quick': 6 * 22, 'thorough': 6 * 86}
+
     def plan(self, tier):
         if tier == 'quick':
-            return {'runs': 5000, 'budget_s': 110, 'batch': 10}
-        return {'runs': 90000, 'budget_s': 1700, 'batch': 20}
+            return {'runs': 132 + 4200, 'budget_s': 110, 'batch': 6}
+        return {'runs': 516 + 90000, 'budget_s': 1700, 'batch': 12}
 
     def generate(self, rng, tier, index):
         spec = gen_pool_spec(rng.sub('spec'))
@@ -522,6 +566,12 @@ class C13Machine(Machine):
         fspec['widths'] = [32] * 5
         fspec['events'] = [[float(v) - (50.0 if j in (2, 3) else 0.0) for j, v in enumerate(r)] for r in spec['events']]
         plots = rng.chance(0.25)
+        if index < self.N_PAIR_RUNS.get(tier, 0):
+            objs = ['raw', 'rfi', 'mef', 'view', 'rawf', 'col']
+            obj = objs[index % len(objs)]
+            stride = 4 if tier == 'quick' else 1
+            return {'arm': 'pairs', 'obj': obj, 'a': (index // len(objs)) * stride, 'spec': spec, 'fspec': fspec,
+                    'seed': rng.randint(0, 2 ** 31 - 1)}
         if tier == 'thorough' and index % 3 == 0:
             # ordered pair of calls on the same object
             a = gen_call(rng, plots=False)
@@ -538,6 +588,8 @@ class C13Machine(Machine):
         return {'spec': spec, 'fspec': fspec, 'ops': ops, 'seed': rng.randint(0, 2 ** 31 - 1)}
 
     def summarise(self, case):
+        if case.get('arm') == 'pairs':
+            return {'arm': 'pairs', 'obj': case['obj'], 'first_call': canonical_queries(case['obj'])[case['a'] % len(canonical_queries(case['obj']))]}
         return {'ops': case['ops'], 'n_events': len(case['spec']['events']), 'version': case['spec']['version']}
 
     # ------------------------------------------------------------------
@@ -571,114 +623,20 @@ class C13Machine(Machine):
             bf, _ = fcs_ref.build(case['fspec'])
             dk.write('s.fcs', b)
             dk.write('f.fcs', bf)
-            pool = Pool(F, dk.materialise('s.fcs'), dk.materialise('f.fcs'))
-            beads_path = None
+            paths = (dk.materialise('s.fcs'), dk.materialise('f.fcs'))
             covered = set()
-            for n, op in enumerate(case['ops']):
-                out['evals'] += 1
-                name = op.get('obj') or op.get('src')
-                if name == 'beads':
-                    if beads_path is None:
-                        beads_path = make_beads(F, dk, 7)
-                    if 'beads' not in pool.obj:
-                        pool.obj['beads'] = F.transform.to_rfi(F.io.FCSData(beads_path), CH[:4])
-                    target = pool.obj['beads']
-                elif name is not None:
-                    target = pool.get(name)
-                else:
-                    target = None
-                try:
-                    call = build_call(F, op, target, pool)
-                except Exception as e:
-                    # building the arguments needed a FlowCal call that raised: not this step's subject
-                    log.add('build-failed', op['fn'], type(e).__name__)
-                    bump(out['probes'], 'call_could_not_be_formed')
-                    continue
-                covered.add(call.label)
-                watch = [w for w in call.watch]
-                pool_names = sorted(pool.obj)
-                before_args = [fpm.fp_any(w) for w in watch]
-                before_ids = [ident(w) for w in watch]
-                before_pool = {k: fpm.fp_any(pool.obj[k]) for k in pool_names}
-                seams.seed_global_rng(case['seed'] + n)
-                try:
-                    res = call.fn(*call.args, **call.kwargs)
-                    rk = 'ok'
-                except Exception as e:
-                    res = None
-                    rk = 'exc:' + type(e).__name__
-                plt.close('all')
-                okind = ('sample' if is_sample(target) else 'array' if isinstance(target, np.ndarray) else 'none')
-                shape_id = fpm.digest({k: (v if not isinstance(v, (list, dict)) else type(v).__name__ + str(len(v)))
-                                       for k, v in op.items() if k not in ('obj',)})[:8]
-                sig = '%s|%s|%s|%s' % (call.label, name, shape_id, rk.split(':')[0])
-                out['sigs'].add(sig)
-                site = '%s/%s' % (call.label, op.get('scale') if isinstance(op.get('scale'), str) else
-                                  (op.get('bins') if isinstance(op.get('bins'), str) else okind))
-                # (1) arguments and pool unchanged
-                after_args = [fpm.fp_any(w) for w in watch]
-                after_ids = [ident(w) for w in watch]
-                for i, (x, y) in enumerate(zip(before_args, after_args)):
-                    if x != y:
-                        V.append(violation('C13/arg-mutated', site,
-                                           'step %d %s(%s): argument %d (%s) changed by the call (%s)' % (
-                                               n, call.label, {k: v for k, v in op.items()}, i, type(watch[i]).__name__, rk)))
-                        break
-                else:
-                    for i, (x, y) in enumerate(zip(before_ids, after_ids)):
-                        if x != y:
-                            V.append(violation('C13/arg-identity', site,
-                                               'step %d %s: elements of caller-owned %s were replaced' % (
-                                                   n, call.label, type(watch[i]).__name__)))
-                            break
-                for k in pool_names:
-                    if fpm.fp_any(pool.obj[k]) != before_pool[k]:
-                        df = fpm.diff_fields(before_pool[k][1], fpm.fp_any(pool.obj[k])[1]) \
-                            if is_sample(pool.obj[k]) else ['values']
-                        V.append(violation('C13/pool-mutated', site + '/' + '+'.join(df),
-                                           'step %d %s(%s) changed pool object %r fields %s' % (n, call.label, op, k, df)))
-                        break
-                rfp = result_fp(res) if rk == 'ok' else None
-                log.add('call', n, call.label, name, rk, fpm.digest(rfp))
+            if case.get('arm') == 'pairs':
+                # every canonical query b after the canonical query a, on the same object of a fresh pool
+                canon = canonical_queries(case['obj'])
+                a = canon[case['a'] % len(canon)]
+                histories = [[a, bq] for bq in canon]
+                bump(out['probes'], 'ordered_pairs_walked', len(histories))
+            else:
+                histories = [case['ops']]
+            for ops in histories:
+                self.run_history(F, plt, dk, paths, ops, case['seed'], out, log, covered)
                 if V:
                     break
-                # (3) history independence: same call on a never-used twin
-                if name is not None and name != 'beads' and n > 0:
-                    try:
-                        twin = pool.fresh(name)
-                        call2 = build_call(F, op, twin, pool)
-                        seams.seed_global_rng(case['seed'] + n)
-                        try:
-                            res2 = call2.fn(*call2.args, **call2.kwargs)
-                            rk2 = 'ok'
-                        except Exception as e:
-                            res2, rk2 = None, 'exc:' + type(e).__name__
-                        plt.close('all')
-                        rfp2 = result_fp(res2) if rk2 == 'ok' else None
-                        if rk2 != rk or rfp2 != rfp:
-                            V.append(violation('C13/history-dependent', site,
-                                               'step %d %s(%s) on %r answers differently after the history %s than on a fresh '
-                                               'object (%s vs %s)' % (n, call.label, op, name,
-                                                                      [o['fn'] for o in case['ops'][:n]], rk, rk2)))
-                            break
-                        bump(out['probes'], 'twin_comparisons')
-                    except Exception as e:
-                        bump(out['probes'], 'twin_could_not_be_formed')
-                # (2) results that are samples share no mutable state with inputs
-                if rk == 'ok':
-                    rs = samples_in(res if not (isinstance(res, tuple) and hasattr(res, '_fields')) else list(res))
-                    ins = [w for w in samples_in(watch)]
-                    for r in rs[:2]:
-                        if any(r is i for i in ins) or not ins:
-                            continue
-                        bad = self.cross_mutate(r, ins, call.shares)
-                        bump(out['probes'], 'cross_mutation_checks')
-                        if bad:
-                            V.append(violation('C13/result-shares-state', site + '/' + bad,
-                                               'step %d %s(%s): %s' % (n, call.label, op, bad)))
-                            break
-                    if V:
-                        break
             for lbl in covered:
                 bump(out['components'], 'called:' + lbl)
         finally:
@@ -687,6 +645,121 @@ class C13Machine(Machine):
         out['summary'] = {'violations': len(V)}
         return out
 
+
+    def run_history(self, F, plt, dk, paths, ops, seed, out, log, covered):
+        """one history on a fresh pool; appends to out['violations'] and stops at the first violation"""
+        V = out['violations']
+
+        def bump(d, k, n=1):
+            d[k] = d.get(k, 0) + n
+
+        pool = Pool(F, paths[0], paths[1])
+        beads_path = None
+        for n, op in enumerate(ops):
+            out['evals'] += 1
+            name = op.get('obj') or op.get('src')
+            if name == 'beads':
+                if beads_path is None:
+                    beads_path = make_beads(F, dk, 7)
+                if 'beads' not in pool.obj:
+                    pool.obj['beads'] = F.transform.to_rfi(F.io.FCSData(beads_path), CH[:4])
+                target = pool.obj['beads']
+            elif name is not None:
+                target = pool.get(name)
+            else:
+                target = None
+            try:
+                call = build_call(F, op, target, pool)
+            except Exception as e:
+                # building the arguments needed a FlowCal call that raised: not this step's subject
+                log.add('build-failed', op['fn'], type(e).__name__)
+                bump(out['probes'], 'call_could_not_be_formed')
+                continue
+            covered.add(call.label)
+            watch = [w for w in call.watch]
+            pool_names = sorted(pool.obj)
+            before_args = [fpm.fp_any(w) for w in watch]
+            before_ids = [ident(w) for w in watch]
+            before_pool = {k: fpm.fp_any(pool.obj[k]) for k in pool_names}
+            seams.seed_global_rng(seed + n)
+            try:
+                res = call.fn(*call.args, **call.kwargs)
+                rk = 'ok'
+            except Exception as e:
+                res = None
+                rk = 'exc:' + type(e).__name__
+            plt.close('all')
+            okind = ('sample' if is_sample(target) else 'array' if isinstance(target, np.ndarray) else 'none')
+            shape_id = fpm.digest({k: (v if not isinstance(v, (list, dict)) else type(v).__name__ + str(len(v)))
+                                   for k, v in op.items() if k not in ('obj',)})[:8]
+            sig = '%s|%s|%s|%s' % (call.label, name, shape_id, rk.split(':')[0])
+            out['sigs'].add(sig)
+            site = '%s/%s' % (call.label, op.get('scale') if isinstance(op.get('scale'), str) else
+                              (op.get('bins') if isinstance(op.get('bins'), str) else okind))
+            # (1) arguments and pool unchanged
+            after_args = [fpm.fp_any(w) for w in watch]
+            after_ids = [ident(w) for w in watch]
+            for i, (x, y) in enumerate(zip(before_args, after_args)):
+                if x != y:
+                    V.append(violation('C13/arg-mutated', site,
+                                       'step %d %s(%s): argument %d (%s) changed by the call (%s)' % (
+                                           n, call.label, {k: v for k, v in op.items()}, i, type(watch[i]).__name__, rk)))
+                    break
+            else:
+                for i, (x, y) in enumerate(zip(before_ids, after_ids)):
+                    if x != y:
+                        V.append(violation('C13/arg-identity', site,
+                                           'step %d %s: elements of caller-owned %s were replaced' % (
+                                               n, call.label, type(watch[i]).__name__)))
+                        break
+            for k in pool_names:
+                if fpm.fp_any(pool.obj[k]) != before_pool[k]:
+                    df = fpm.diff_fields(before_pool[k][1], fpm.fp_any(pool.obj[k])[1]) \
+                        if is_sample(pool.obj[k]) else ['values']
+                    V.append(violation('C13/pool-mutated', site + '/' + '+'.join(df),
+                                       'step %d %s(%s) changed pool object %r fields %s' % (n, call.label, op, k, df)))
+                    break
+            rfp = result_fp(res) if rk == 'ok' else None
+            log.add('call', n, call.label, name, rk, fpm.digest(rfp))
+            if V:
+                break
+            # (3) history independence: same call on a never-used twin
+            if name is not None and name != 'beads' and n > 0:
+                try:
+                    twin = pool.fresh(name)
+                    call2 = build_call(F, op, twin, pool)
+                    seams.seed_global_rng(seed + n)
+                    try:
+                        res2 = call2.fn(*call2.args, **call2.kwargs)
+                        rk2 = 'ok'
+                    except Exception as e:
+                        res2, rk2 = None, 'exc:' + type(e).__name__
+                    plt.close('all')
+                    rfp2 = result_fp(res2) if rk2 == 'ok' else None
+                    if rk2 != rk or rfp2 != rfp:
+                        V.append(violation('C13/history-dependent', site,
+                                           'step %d %s(%s) on %r answers differently after the history %s than on a fresh '
+                                           'object (%s vs %s)' % (n, call.label, op, name,
+                                                                  [o['fn'] for o in ops[:n]], rk, rk2)))
+                        break
+                    bump(out['probes'], 'twin_comparisons')
+                except Exception as e:
+                    bump(out['probes'], 'twin_could_not_be_formed')
+            # (2) results that are samples share no mutable state with inputs
+            if rk == 'ok':
+                rs = samples_in(res if not (isinstance(res, tuple) and hasattr(res, '_fields')) else list(res))
+                ins = [w for w in samples_in(watch)]
+                for r in rs[:2]:
+                    if any(r is i for i in ins) or not ins:
+                        continue
+                    bad = self.cross_mutate(r, ins, call.shares)
+                    bump(out['probes'], 'cross_mutation_checks')
+                    if bad:
+                        V.append(violation('C13/result-shares-state', site + '/' + bad,
+                                           'step %d %s(%s): %s' % (n, call.label, op, bad)))
+                        break
+                if V:
+                    break
     def finalise_evidence(self, cov):
         import FlowCal as F
         surf = self.public_surface(F)
@@ -758,6 +831,14 @@ class C13Machine(Machine):
         return None
 
     def shrink_candidates(self, case):
+        if case.get('arm') == 'pairs':
+            canon = canonical_queries(case['obj'])
+            a = canon[case['a'] % len(canon)]
+            for bq in canon:
+                c = {k: v for k, v in case.items() if k not in ('arm', 'obj', 'a')}
+                c['ops'] = [a, bq]
+                yield c
+            return
         for ops in list_reductions(case['ops'], 1):
             c = copy.deepcopy(case)
             c['ops'] = ops
